@@ -442,7 +442,7 @@ def http1MethodCase (toks impl : List String) : String :=
   | _, ["lost"] => "D V lost"
   | _, _ => "E E bad-http1m-case"
 
-def run (caseToks impl : List String) : String :=
+def run1 (caseToks impl : List String) : String :=
   match caseToks with
   | ["reenc", proto, kind, rounds, inp] => reencCase proto kind rounds inp impl
   | ["bolt", id, ops, inp] => boltCase false id ops inp impl
@@ -458,5 +458,41 @@ def run (caseToks impl : List String) : String :=
   | ["relayup", mode, gs, cs, ss] => relayUpCase mode gs cs ss impl
   | "http2" :: r => http2Case r impl
   | _ => "E E unknown-kind"
+
+/-! ### the same modified frame object encoded several times
+
+  `reencm <id1,id2,...> <head> <ops> [<extra> ...] <inputHex> => <dec> <enc1>:<hex1>,<enc2>:<hex2>,...`
+
+`<head> <ops> <extra> <inputHex>` are the tokens of a single-encode case (`bolt`, `boltv2`, `dubbo`, `thrift`,
+`tars req|resp`).  By `encode_idempotent_on_frame` the model's k-th output is what a first encode with the k-th id gives,
+so every try is evaluated as that single-encode case (model bytes and reference predicate) with the try's id. -/
+def reencmCase (idsS : String) (mk : String → List String) (impl : List String) : String :=
+  match impl with
+  | [dec, encsS] =>
+    let ids := idsS.splitOn ","
+    let encs := if encsS == "-" then [] else encsS.splitOn ","
+    if !dec.startsWith "frame:" then "E E reencm-without-frame"
+    else if encs.length != ids.length then s!"D V tries={ids.length} outputs={encs.length}"
+    else
+      let rs := (ids.zip encs).map (fun p =>
+        match p.2.splitOn ":" with
+        | [st, hx] => run1 (mk p.1) [dec, st, hx]
+        | _ => "E E bad-try")
+      let bad := rs.zipIdx.filter (fun p => (p.1.splitOn " ").take 2 != ["A", "S"])
+      match bad with
+      | [] => s!"A S tries={ids.length}"
+      | (r, k) :: _ =>
+        let as := rs.map (fun r => (r.splitOn " ").headD "E")
+        let vs := rs.map (fun r => ((r.splitOn " ").drop 1).headD "E")
+        let a := if as.contains "E" then "E" else if as.all (· == "A") then "A" else "D"
+        let v := if vs.contains "E" then "E" else if vs.all (· == "S") then "S" else "V"
+        s!"{a} {v} try={k + 1}:{" ".intercalate ((r.splitOn " ").drop 2)}"
+  | _ => "E E bad-impl"
+
+def run (caseToks impl : List String) : String :=
+  match caseToks with
+  | "reencm" :: ids :: "tars" :: k :: rest => reencmCase ids (fun id => "tars" :: k :: id :: rest) impl
+  | "reencm" :: ids :: h :: rest => reencmCase ids (fun id => h :: id :: rest) impl
+  | _ => run1 caseToks impl
 
 end MosnVerif.Drive.C01
